@@ -60,7 +60,10 @@ func schedFor(r *sim.Rng, shortest time.Duration) sim.SchedCfg {
 func Generate(r *sim.Rng, prop, tier string, idx int) *sim.Case {
 	c := &sim.Case{World: "lock", Prop: prop, Knobs: map[string]int64{}}
 	backendKind := int64(0)
-	if tier == "thorough" && r.Chance(1, 4) {
+	// C04 is fault-free by definition; over a network a cancelled Create that
+	// is already on the wire acts as a reply-lost fault (DESIGN 10.2), so C04
+	// runs on the in-memory backend only
+	if tier == "thorough" && r.Chance(1, 4) && prop != "C04" {
 		backendKind = 1
 	}
 	c.Knobs["backend"] = backendKind
